@@ -349,10 +349,38 @@ func domConds(b *ssa.BasicBlock) []Cond {
 				continue
 			}
 			if edgeDominates(d, k, b) {
-				out = append(out, Cond{V: iff.Cond, Truth: k == 0, If: iff})
+				out = append(out, expandCond(Cond{V: iff.Cond, Truth: k == 0, If: iff}, 0)...)
 			}
 		}
 	}
+	return out
+}
+
+// expandCond: a condition that is the value form of a && b (phi of false and b) being true implies a and b; the value form of
+// a || b (phi of true and b) being false implies !a and !b. The implied conditions are those that hold where b was evaluated.
+func expandCond(cd Cond, depth int) []Cond {
+	out := []Cond{cd}
+	phi, ok := cd.V.(*ssa.Phi)
+	if !ok || depth > 3 {
+		return out
+	}
+	var rest []int
+	for i, e := range phi.Edges {
+		if cv, ok := e.(*ssa.Const); ok && cv.Value != nil && cv.Value.Kind() == constant.Bool && constant.BoolVal(cv.Value) != cd.Truth {
+			continue // this edge gives the opposite value: not taken
+		}
+		rest = append(rest, i)
+	}
+	if len(rest) != 1 {
+		return out
+	}
+	i := rest[0]
+	if _, isConst := phi.Edges[i].(*ssa.Const); isConst {
+		return out
+	}
+	p := phi.Block().Preds[i]
+	out = append(out, domConds(p)...)
+	out = append(out, expandCond(Cond{V: phi.Edges[i], Truth: cd.Truth, If: cd.If}, depth+1)...)
 	return out
 }
 
